@@ -28,9 +28,11 @@ var boundedChecks = map[string][]BoundedCheck{
 	"C07": {{Prop: "C07", Name: "shapes-no-internal-error", Pkg: ".", File: "shapes_no_internal_error_test.go.txt", Run: "TestVerifShapesNoInternalError",
 		Bound: "a fixed list of 32 assignment-target shapes, 5 call shapes of a contracted variadic function and 11 range operand kinds under the default flags, plus 12 function-literal shapes with -experimental-anonymous-function on, plus the default shapes and a package of struct shapes under 3 struct-init flag combinations, 14 method-expression calls, 4 boolean-shaped switch cases, 3 function-type conversions and 2 struct-init-v2 stable-call shapes (20 s termination limit each), run through the real analyzer: no INTERNAL diagnostic"}},
 	"C19": {{Prop: "C19", Name: "canonicalize-routing", Pkg: "assertion/function/preprocess", File: "canonicalize_routing_test.go.txt", Run: "TestVerifCanonicalizeRouting",
-		Bound: "every condition of a grammar of nil comparisons (both operand orders), a boolean, !, parentheses, ==/!= true/false (both operand orders), && and ||, nested to depth 2 (quick: ~3,500 conditions) / partly depth 3 (thorough), every valuation of the 3 atoms: the CFG rewritten by the real canonicalizeConditional reaches the then-branch exactly when the condition is true"}},
+		Bound: "every condition of a grammar of nil comparisons (both operand orders), a boolean, !, parentheses, ==/!= true/false (both operand orders), && and ||, nested to depth 2 (quick: ~3,500 conditions) / partly depth 3 (thorough), every valuation of the 3 atoms: the CFG rewritten by the real canonicalizeConditional reaches the then-branch exactly when the condition is true, and no branching block is left with a condition canonicalizeConditional is documented to rewrite"}},
 	"C20": {{Prop: "C20", Name: "contracted-call-shapes", Pkg: ".", File: "contracted_call_shapes_test.go.txt", Run: "TestVerifContractedCallShapes",
 		Bound: "7 one-parameter one-result callee bodies x 4 argument shapes (literal nil, nil-valued variable, maybe-nil parameter, non-nil) x 2 layouts (same package, callee in a dependency), run through the real analyzer: a dereference of the result that can panic at run time is reported"}},
+	"C11": {{Prop: "C11", Name: "nolint-line-directives", Pkg: ".", File: "nolint_line_directive_test.go.txt", Run: "TestVerifNoLintLineDirectives",
+		Bound: "6 shapes of //nolint:nilaway comments inside and outside regions governed by //line directives (over-constraint and single-assertion conflicts, statement- and function-level comments, an adjusted file:line that aliases another physical line), run through the real analyzer: exactly the findings on the comment's own physical lines are suppressed"}},
 	"C13": {{Prop: "C13", Name: "prettyprint-strip-roundtrip", Pkg: ".", File: "prettyprint_roundtrip_test.go.txt", Run: "TestVerifPrettyPrintRoundTrip",
 		Bound: "all token sequences of length <= 4 (quick) / 5 (thorough) over 11 token kinds (words, `code`, \"paths\", nilability phrases, tabs, newlines, nested quote/backtick mixes)"}},
 }
